@@ -177,27 +177,41 @@ PrintAttrF(a, base) ==
 RECURSIVE PrintAttrsF(_, _)
 PrintAttrsF(as, base) == IF as = <<>> THEN [s |-> "", f |-> base]
                          ELSE LET h == PrintAttrF(Head(as), base) r == PrintAttrsF(Tail(as), h.f) IN [s |-> h.s \o r.s, f |-> r.f]
-RECURSIVE PrintNodesF(_, _), PrintNodeF(_, _)
-PrintNodesF(items, base) == IF items = <<>> THEN [s |-> "", f |-> base]
-                            ELSE LET h == PrintNodeF(Head(items), base) r == PrintNodesF(Tail(items), h.f) IN [s |-> h.s \o r.s, f |-> r.f]
-BodyF(n, base) ==
+RECURSIVE PrintNodesF(_, _, _), PrintNodeF(_, _, _)
+PrintNodesF(items, base, cm) == IF items = <<>> THEN [s |-> "", f |-> base]
+                                ELSE LET h == PrintNodeF(Head(items), base, cm) r == PrintNodesF(Tail(items), h.f, cm) IN [s |-> h.s \o r.s, f |-> r.f]
+(* comment.enabled with the default template "<!-- /[#ID][.CLASS] -->" after the closing tag of a named element that has an id or a
+   class attribute: the values are printed again - through push_tokens(), so their fields take new numbers *)
+CommentF(n, base) ==
+    IF ~(\E i \in 1..Len(n.attrs) : n.attrs[i].name \in {"id", "class"}) THEN [s |-> "", f |-> base]
+    ELSE LET AttrVal(nm) == IF \E i \in 1..Len(n.attrs) : n.attrs[i].name = nm /\ Truthy(n.attrs[i])
+                        THEN n.attrs[CHOOSE i \in 1..Len(n.attrs) : n.attrs[i].name = nm /\ Truthy(n.attrs[i])
+                                                                     /\ \A j \in (i + 1)..Len(n.attrs) : ~(n.attrs[j].name = nm /\ Truthy(n.attrs[j]))].value
+                        ELSE <<>>
+             a == IF AttrVal("id") = <<>> THEN [s |-> "", f |-> base] ELSE (LET v == Push(AttrVal("id"), base) IN [s |-> "#" \o v.s, f |-> v.f])
+             b == IF AttrVal("class") = <<>> THEN [s |-> "", f |-> a.f] ELSE (LET v == Push(AttrVal("class"), a.f) IN [s |-> "." \o v.s, f |-> v.f])
+         IN [s |-> "<!-- /" \o a.s \o b.s \o " -->", f |-> b.f]
+BodyF(n, base, cm) ==
     LET valTruthy == n.hasval /\ n.value # <<>>
         ff == IF valTruthy /\ n.kids # <<>> THEN FirstField(n.value) ELSE 0
     IN IF ff # 0
-       THEN LET a == Push(SubSeq(n.value, 1, ff - 1), base) k == PrintNodesF(n.kids, a.f) c == Push(SubSeq(n.value, ff + 1, Len(n.value)), k.f)
+       THEN LET a == Push(SubSeq(n.value, 1, ff - 1), base) k == PrintNodesF(n.kids, a.f, cm) c == Push(SubSeq(n.value, ff + 1, Len(n.value)), k.f)
             IN [s |-> a.s \o k.s \o c.s, f |-> c.f]
        ELSE LET v == IF valTruthy THEN Push(n.value, base) ELSE [s |-> "", f |-> base]
-                k == PrintNodesF(n.kids, v.f)
+                k == PrintNodesF(n.kids, v.f, cm)
                 c == IF ~valTruthy /\ n.kids = <<>> /\ n.name # "" THEN Push(CaretItems, k.f) ELSE [s |-> "", f |-> k.f]   \* the caret of an empty leaf
             IN [s |-> v.s \o k.s \o c.s, f |-> c.f]
-PrintNodeF(n, base) ==
+PrintNodeF(n, base, cm) ==
     LET valTruthy == n.hasval /\ n.value # <<>> IN
     IF n.name # ""
     THEN LET at == PrintAttrsF(n.attrs, base) IN
          IF n.sc /\ n.kids = <<>> /\ ~valTruthy THEN [s |-> "<" \o n.name \o at.s \o SelfCloseToken \o ">", f |-> at.f]
-         ELSE LET bd == BodyF(n, at.f) IN [s |-> "<" \o n.name \o at.s \o ">" \o bd.s \o "</" \o n.name \o ">", f |-> bd.f]
-    ELSE IF valTruthy THEN BodyF(n, base) ELSE [s |-> "", f |-> base]
-PrintedF == PrintNodesF(Transformed, 1).s
+         ELSE LET bd == BodyF(n, at.f, cm)
+                  co == IF cm THEN CommentF(n, bd.f) ELSE [s |-> "", f |-> bd.f]
+              IN [s |-> "<" \o n.name \o at.s \o ">" \o bd.s \o "</" \o n.name \o ">" \o co.s, f |-> co.f]
+    ELSE IF valTruthy THEN BodyF(n, base, cm) ELSE [s |-> "", f |-> base]
+PrintedF == PrintNodesF(Transformed, 1, FALSE).s
+PrintedFC == PrintNodesF(Transformed, 1, TRUE).s           \* with comment.enabled (layout of the comment not modelled: only its tabstops matter here)
 
 RECURSIVE PrimaryF(_, _)
 ClassItems(vl) == [i \in 1..Len(vl) |-> IF vl[i].f THEN vl[i] ELSE [vl[i] EXCEPT !.s = DotWS(@, FALSE)]]
